@@ -387,6 +387,29 @@ func runC11(c *core.Ctx, o Options) {
 			}
 		}
 	}
+	// ---- nil function fields on the inbound path: Session.LogonHandler is set only by the acceptor's constructor and is called,
+	// unguarded, by the Logon handler in state WaitingLogon. So WaitingLogon must be a state only an accepting session can rest in:
+	// every path of every entry point that ends with the state set to WaitingLogon has established the accepting side.
+	if s := newSess(c); s != nil {
+		nCalls := 0
+		for _, r := range s.roots() {
+			if r.Cat == "method" && an.NameOf(r.Fn) != "Run" {
+				continue
+			}
+			for _, t := range s.tr.Traces(r.Fn, s.m.AllStates) {
+				for _, e := range t.Events {
+					if e.Kind == "check" && e.Name == "app" {
+						nCalls++
+						read, _ := s.entryRead(t)
+						c.Check(read == s.m.Set("WaitingLogon"), "nilcall", r.Name(), "the application's logon callback is called only in state WaitingLogon", e.Pos, "state read {WaitingLogon}",
+							"Session.LogonHandler (nil on an initiating session) is called on a path whose state read is "+s.m.SetString(read))
+					}
+				}
+			}
+		}
+		c.Check(nCalls >= 1, "nilcall", "", "LogonHandler call found", token.NoPos, fmt.Sprint(nCalls), "no call of Session.LogonHandler found (anchor moved)")
+		s.checkRestingSide("nilcall")
+	}
 	c.Extra["bounds_sites"] = nSites
 	c.Extra["discharged_by_compiler"] = nGC
 	c.Extra["discharged_by_linear_engine"] = nLin
